@@ -43,6 +43,8 @@ def gpt_kwargs(case):
     kw = dict(allreduce_bucket_cap_mb=case.get('cap', 25.0), compute_eigenvalue_outer_product=case.get('prediv', False),
               symmetry_aware=case.get('symmetry', False), accumulation_steps=case.get('accum', 1),
               update_factors_in_hook=case.get('in_hook', True), skip_layers=case.get('skip_layers'))
+    if case.get('heuristic'):
+        kw['assignment_strategy'] = case['heuristic']
     for k in HP_KEYS:
         if k in case.get('hp', {}):
             kw[k] = hp_callable(case['hp'][k])
